@@ -454,7 +454,9 @@ register("C12", {
             "below the number in flight - at PRNG instants, RST_STREAM of single streams, PING; "
             "callers read fully, slowly or close early; asyncio fifo+shuffle and threads; oracle = "
             "per-stream equality, stream count against the acknowledged limit (h2 server + "
-            "independent frame ledger), deadlock detector, unaffected streams complete",
+            "independent frame ledger), deadlock and livelock detector, unaffected streams "
+            "complete - also when one caller is cancelled at a random suspension point (30% of "
+            "the asyncio runs)",
     "assumptions": ["MAX_CONCURRENT_STREAMS=0 is not generated (a request would legitimately "
                     "wait for ever)"],
 }, [StreamsFamily("streams-async", "asyncio", 2500, 50000),
@@ -467,7 +469,9 @@ register("C13", {
             "WINDOW_UPDATE policy (eager, tiny increments, stream-first, connection-first, late, "
             "batched), 1..3 uploads sharing the connection window, optionally a concurrent "
             "download holding the read lock; oracle = server-side window accounting (h2 + "
-            "independent), exact upload bodies, deadlock detector, no time-out without a fault",
+            "independent), exact upload bodies, deadlock and livelock detector, no time-out "
+            "without a fault; a quarter of the uploads get their response head before the "
+            "request body has been received",
     "assumptions": ["a few response bodies beyond the client's 16 MiB + 65535 credit per run "
                     "(big-download family); uploads are bounded to a few multiples of the window"],
 }, [FlowFamily("flow-async", "asyncio", 2000, 40000),
